@@ -262,6 +262,7 @@ type inObs struct {
 	TransportClosed bool
 	WireAfter       []byte
 	PeakAlloc       uint64
+	Chunks          int // number of network reads the stream was cut into
 }
 
 func cutChunks(c *Ctx, b []byte, mode int) [][]byte {
@@ -301,6 +302,7 @@ func runInbound(spec connSpec, chunks [][]byte) (obs inObs, conn *gws.Conn, tap 
 	}
 	tap.feed(chunks...)
 	tap.setEOF()
+	obs.Chunks = len(chunks)
 	var ms0 runtime.MemStats
 	runtime.ReadMemStats(&ms0)
 	done := runWithTimeout(20*time.Second, func() {
@@ -536,8 +538,9 @@ func collectUtf8Candidates(stream []byte, o specOutcome, add func([]byte)) {
 // and the reassembled/inflated message, the recording handler copies the payload once more; anything that buffers
 // "substantially more than the limit" (an unchecked declared length, an unbounded reassembly or inflate) is orders of
 // magnitude above this.
-func allocBudget(limit, streamLen int) uint64 {
-	return uint64(8*limit) + (4 << 20) + uint64(2*streamLen)
+func allocBudget(limit, streamLen, chunks int) uint64 {
+	// + the harness's own bookkeeping per network read (operation log entries, chunk headers)
+	return uint64(8*limit) + (4 << 20) + uint64(2*streamLen) + uint64(512*chunks)
 }
 
 // d18: the pinned klauspost/compress v1.17.5 inflater reports a clean end of stream when the input runs out while it
